@@ -113,6 +113,8 @@ def invalidations(rng, schema, doc):
             here = path + [k]
             if p.get("required", True) and k in d:
                 out.append(("missing-required", delete(doc, here)))
+            # an explicit null, for a field that is present and for an optional one that is left out
+            out.append(("null-value:%s" % ("present" if k in d else "omitted-optional"), put(doc, here, None)))
             if k in d:
                 bad = wrong_value(t)
                 if isinstance(t, tuple) and t[0] in ("object", "ref"):
@@ -181,6 +183,26 @@ def invalidations(rng, schema, doc):
     return out
 
 
+def whole_document_invalidations(schema, doc):
+    """The document as a whole is not an object. (An object with a single property may be written as that property's value,
+    so scalar documents are only used for schemas with several properties.)"""
+    out = [("document:null", None), ("document:list", [doc])]
+    if len(schema.props) > 1:
+        out += [("document:scalar", "text"), ("document:number", 7)]
+    return out
+
+
+def as_yaml_reader_sees(d):
+    """The engine's YAML reader hands every scalar over as its text: an explicit null arrives as the string "null"."""
+    if d is None:
+        return "null"
+    if isinstance(d, dict):
+        return {k: as_yaml_reader_sees(v) for k, v in d.items()}
+    if isinstance(d, list):
+        return [as_yaml_reader_sees(v) for v in d]
+    return d
+
+
 LEAF_FIELD = {"string": "tag", "integer": "n", "float": "f", "bool": "b"}
 
 
@@ -225,16 +247,20 @@ def run(check):
             rng.shuffle(inv)
             inv = inv[:8]
         docs += inv
+        docs += whole_document_invalidations(schema, doc)
         scripts = gen.make_scripts(prog.steps, {})
         for kind, d in docs:
-            try:
-                expected = ref.normalise_input(schema, d)
-                valid = True
-            except ref.InvalidInput:
-                expected, valid = None, False
-            if kind != "valid" and valid:
-                continue  # the mutation happened to stay valid (e.g. deleting an optional field): not an invalidation
             for entry in ("execute", "engine"):
+                seen_d = as_yaml_reader_sees(d) if entry == "engine" else d
+                if entry == "engine" and seen_d == "null" and len(schema.props) == 1:
+                    continue  # the text "null" as the value of the only property
+                try:
+                    expected = ref.normalise_input(schema, seen_d)
+                    valid = True
+                except ref.InvalidInput:
+                    expected, valid = None, False
+                if kind != "valid" and valid and not kind.startswith("null-value"):
+                    continue  # the mutation happened to stay valid (e.g. deleting an optional field): not an invalidation
                 cid = "c19-%05d" % idx
                 idx += 1
                 if entry == "execute":
